@@ -6,6 +6,7 @@
 //   E x y            new_eq                      -> r=<lit>
 //   A|O|M|X x1 ..    new_conj|new_disj|new_at_most_one|new_exct_one -> r=<lit>
 //   P                propagate()                 -> r=<0|1>
+//   JQ               semantic judge of the LAST request on the current clause set (DPLL, any number of variables)
 //   J <maxvars>      truth-table judge on the implementation's clause set (not sent to the oracle)
 // literals are 2 * variable + sign. After r=.. every line carries the canonical state (see satenc_common.h).
 #include "satenc_common.h"
@@ -36,6 +37,17 @@ int main()
       jd = judge();
       results.clear();
       std::cout << "r=ok " << state_string(*s) << "\n";
+      continue;
+    }
+    if (op == 'J' && tk[0] == "JQ")
+    { // judge the last request against the clause set as it is now
+      if (jd.reqs.empty())
+        std::cout << "J ok none\n";
+      else
+      {
+        std::string v = judge_request(*s, jd.reqs.back(), jd.reqs.size() - 1);
+        std::cout << (v.rfind("ok", 0) == 0 ? "J " : "J FAIL ") << v << "\n";
+      }
       continue;
     }
     if (op == 'J')
